@@ -409,11 +409,16 @@ def _worker(ob, tier, seed, repo, q):
         try:
             ob.func(ctx)
         except Exception as e:
-            from .values import EvalError
+            from .values import EvalError, UninitRead
             from .cxx import ParseError
-            kind = 'extraction' if isinstance(e, (EvalError, ParseError)) else 'internal'
-            ctx.results.append(GoalResult(ob.oid, ERROR, ob.backend, time.time() - t0,
-                                          '%s error: %s\n%s' % (kind, e, traceback.format_exc()[-1500:])))
+            if isinstance(e, UninitRead):
+                # undefined behaviour in the real code (the value depends on what the stack held before): a violation, not an extraction problem
+                ctx.results.append(GoalResult(ob.oid + '.no_uninitialised_read', FAILED, ob.backend, time.time() - t0,
+                                              'symbolic execution of the real code reaches a %s' % e, model={'_uninitialised': str(e)}, solver='interpreter (definite initialisation)'))
+            else:
+                kind = 'extraction' if isinstance(e, (EvalError, ParseError)) else 'internal'
+                ctx.results.append(GoalResult(ob.oid, ERROR, ob.backend, time.time() - t0,
+                                              '%s error: %s\n%s' % (kind, e, traceback.format_exc()[-1500:])))
         q.put(dict(oid=ob.oid, results=[r.to_dict() for r in ctx.results], notes=ctx.notes,
                    rules=ctx.rule_counts, assumed=ctx.assumed, seconds=time.time() - t0))
     except BaseException as e:
